@@ -462,22 +462,7 @@ def format_dependency_obligations(repo, registry):
                      "note": "%s consults only %s (found %s)" % (fname, sorted(allowed), sorted(calls)), "fmt_search": True})
         recs.append({"name": "_format:%s/S/raises-listed" % fname, "kind": "S", "status": "discharged" if ok_raises else "failed", "solver": "tables",
                      "note": "every exception the dependency may raise on a string (%s) is listed in raises=%s" % (sorted(may_raise), sorted(listed)), "fmt_search": True})
-    # module-level aliases used above
-    tree = repo.trees["_format"]
-    alias_src = {}
-    for n in _ast.walk(tree):
-        if isinstance(n, _ast.Assign) and len(n.targets) == 1 and isinstance(n.targets[0], _ast.Name) and n.targets[0].id in ("_is_date", "_RE_DATE"):
-            alias_src.setdefault(n.targets[0].id, []).append(n.value)
-    srcs = [_ast.unparse(v) for v in alias_src.get("_is_date", [])]
-    ok = srcs == ["datetime.date.fromisoformat"]
-    recs.append({"name": "_format:_is_date/T/alias", "kind": "T", "status": "discharged" if ok else "failed", "solver": "tables",
-                 "note": "_is_date is %s (python >= 3.7 branch)" % srcs, "fmt_search": True})
-    vals = alias_src.get("_RE_DATE", [])
-    ok = (len(vals) == 1 and isinstance(vals[0], _ast.Call) and _ast.unparse(vals[0].func) == "re.compile" and len(vals[0].args) == 2
-          and isinstance(vals[0].args[0], _ast.Constant) and vals[0].args[0].value == "^\\d{4}-\\d{2}-\\d{2}$"
-          and _ast.unparse(vals[0].args[1]) == "re.ASCII")
-    recs.append({"name": "_format:_RE_DATE/T/alias", "kind": "T", "status": "discharged" if ok else "failed", "solver": "tables",
-                 "note": "_RE_DATE is the ASCII pattern ^\\d{4}-\\d{2}-\\d{2}$", "fmt_search": True})
+    # the module-level aliases (_is_date, _RE_DATE) are resolved semantically by the wrapper task (contracts/tasks_format.py: format:wrappers)
     return recs
 
 
@@ -608,11 +593,11 @@ class C13(Spec):
                "the grammars themselves (what the dependencies accept) are NOT proved: they are compared with independently written grammars by the bounded near-miss search, labelled bounded"]
     assumptions = ["date: year 0000 is not a calendar year of the library (outside the claim)", "idn-hostname and draft-3 time: never-raises half only",
                    "formats whose optional libraries are absent are not registered and out of scope"]
-    explanation = "The repository's part is a thin wrapper: proved are (with C12's check contract) that each registered function consults only the dependency its assumed contract covers, lists every exception that dependency may raise, and guards non-strings; hence check raises nothing but FormatError. That the dependencies accept exactly the stated grammars is checked by a bounded near-miss conformance search against independent grammars (all single-character edits of valid and invalid seeds over each format's critical alphabet) - a bounded stand-in, not a proof."
+    explanation = "The repository's part is a thin wrapper, proved by symbolic execution for every string: email is truthy iff the string contains '@'; ipv4 / regex / draft-3 time are truthy iff their dependency accepts; ipv6 iff the dependency accepts and the parsed address has no scope id; date iff the string has the RFC 3339 full-date shape (the repository's pre-check regular expression is translated to an SMT regular expression and compared with the specification's as languages, so a harmless rewrite of the pattern still verifies) and fromisoformat accepts it; each lets escape only the exceptions registered for it. Also (with C12's check contract) each registered function consults only the dependency its assumed contract covers, lists every exception that dependency may raise, and guards non-strings; hence check raises nothing but FormatError. That the dependencies accept exactly the stated grammars is checked by a bounded near-miss conformance search against independent grammars (all single-character edits of valid and invalid seeds over each format's critical alphabet) - a bounded stand-in, not a proof."
 
     def tasks(self, root, tier):
         from contracts import tasks_format
-        return [t for t in tasks_format.format_tasks(root, _tmo(tier)) if t.which in ("check", "conforms", "guards")]
+        return [t for t in tasks_format.format_tasks(root, _tmo(tier)) if t.which in ("check", "conforms", "guards")] + tasks_format.wrapper_tasks(root, _tmo(tier))
 
     def select(self, ob, r):
         return True
